@@ -80,6 +80,17 @@ func c09Configs(tier string) []c09cfg {
 			}
 		}
 	}
+	// two targets change state at the same probe tick while a third one does not (so that no later
+	// notification repairs a lost one), in every position of the target list
+	for _, pat := range [][2]string{{"offf", "oooo"}, {"ffoo", "oooo"}, {"offf", "ffff"}, {"ffoo", "ffff"}, {"ofoo", "oooo"}} {
+		for pos := 0; pos < 3; pos++ {
+			sc := []string{pat[0], pat[0], pat[0]}
+			sc[pos] = pat[1]
+			for _, k := range []string{"refuse", "500"} {
+				cfgs = append(cfgs, c09cfg{sc, []string{k, k, k}, 1})
+			}
+		}
+	}
 	if tier != "quick" {
 		n := len(cfgs)
 		for i := 0; i < n; i += 5 {
